@@ -3,6 +3,7 @@
 // "unmodelled external symbol".
 #include "kernel_int.h"
 #include "shim.h"
+#include <dirent.h>
 #include <errno.h>
 #include <fcntl.h>
 #include <pthread.h>
@@ -83,6 +84,40 @@ int simk_sigaction(int sig, const struct sigaction *act, struct sigaction *old) 
 // the real mask of the worker process must stay untouched
 int simk_sigprocmask(int, const sigset_t *, sigset_t *old) { if (old) sigemptyset(old); return 0; }
 int simk_pthread_sigmask(int, const sigset_t *, sigset_t *old) { if (old) sigemptyset(old); return 0; }
+
+// ---------------------------------------------------------------- directory descriptors
+int simk_open(const char *, int, ...);
+int simk_openat(int dirfd, const char *path, int flags, ...) {
+  mode_t mode = 0;
+  if (flags & O_CREAT) { va_list ap; va_start(ap, flags); mode = va_arg(ap, mode_t); va_end(ap); }
+  if (dirfd == AT_FDCWD || (path && path[0] == '/')) return simk_open(path, flags, mode);
+  Task *t = cur();
+  if (!t) return openat(dirfd, path, flags, mode);
+  FdEnt *d = fd_get(dirfd);
+  int real_dir = d && d->kind == FD_FILE ? d->realfd : dirfd;      // a descriptor taken from a real DIR stream (dirfd) is a real one
+  int n = sc_enter(SC_OPEN);
+  int err = want_fail(SC_OPEN, n);
+  if (err) { errno = err; return -1; }
+  int rfd = openat(real_dir, path, flags, mode);
+  if (rfd < 0) return -1;
+  FdEnt e; e.kind = FD_FILE; e.realfd = rfd; e.cloexec = flags & O_CLOEXEC;
+  return fd_alloc(proc_of(t->proc), e);
+}
+// the stream takes the descriptor over: from here on it is accounted as an open directory stream
+DIR *simk_fdopendir(int fd) {
+  Task *t = cur();
+  if (!t) return fdopendir(fd);
+  FdEnt *e = fd_get(fd);
+  if (!e || e->kind != FD_FILE) { errno = EBADF; return nullptr; }
+  int n = sc_enter(SC_OPENDIR);
+  int err = want_fail(SC_OPENDIR, n);
+  if (err) { errno = err; return nullptr; }
+  DIR *d = fdopendir(e->realfd);
+  if (!d) return nullptr;
+  proc_of(t->proc).fds.erase(fd);
+  k->dirs_open++;
+  return d;
+}
 
 // ---------------------------------------------------------------- threads
 int simk_pthread_detach(pthread_t th) { return sim::shim::detach_native(th); }
